@@ -57,7 +57,7 @@ Ltac nd_tac :=
   lazymatch goal with
   | |- nd (default_title _ _) => apply nd_title; nd_tac
   | |- nd (set_all_items _ _ _) => apply nd_items; nd_tac
-  | |- nd (update_dict _ _) => apply nd_update; [assumption | nd_tac]
+  | |- nd (update_dict _ _) => apply nd_update; [first [assumption | reflexivity] | nd_tac]
   | |- nd (init_self _ _ _) => apply nd_init; nd_tac
   | |- nd (drop_inst "pdffit" _) => apply nd_drop_pdffit
   | |- nd (drop_inst _ _) => apply nd_drop_other; [reflexivity | nd_tac]
